@@ -194,7 +194,25 @@ def run(ctx):
             ctx.probes["reuse_checked"] += 1
             # history: the problem gains an object (added in place to the table the operator was given) and the used
             # operator is applied once more; quantified effects and conditions range over the objects as they are NOW
-            if ops.chance(1, 3):
+            if ops.chance(1, 4):
+                # history: the type hierarchy of the operator's domain is revised in place (a type moved below another
+                # type) and the used operator is applied once more: quantifiers range over the hierarchy as it is NOW
+                r = C.revise_model(ctx, W, d, ops, kinds=("reparent_type",))
+                if r:
+                    W2, what = r
+                    try:
+                        ok5 = interp.applicable(S, W2.action(aname), args, W2.D, W2.objs)
+                        want5 = interp.successor(S, W2.action(aname), args, W2.D, W2.objs)[0] if ok5 else None
+                    except (interp.Inconsistent, interp.Undefined):
+                        ok5 = False
+                    if ok5:
+                        s5 = lib(ctx, W, S, "-reparented")[2]
+                        got5 = apply(ctx, op, s5, FLAGS[0], "Operator.apply (re-used operator, a type was re-parented)", [])
+                        compare(ctx, got5, want5, "Operator.apply (re-used operator, a type was re-parented)", what, W2, S, call)
+                        ctx.probes["reuse_after_type_reparented"] += 1
+                        if not interp.state_eq(want5, want):
+                            ctx.probes["reparenting_changes_successor"] += 1
+            elif ops.chance(1, 3):
                 types = [ty for ty in W.D["types"] if ty not in W.D.get("implicit_types", ())]
                 ty = ops.pick(types) if types else None
                 objs2 = {**W.objs, "znew": ty} if ty else None
